@@ -240,12 +240,13 @@ class Repo:
                 parsed[fn] = self._parse(fn)
         self.renamed_back: Dict[str, str] = {}
         if os.environ.get('VERIF_NO_NORMALIZE') != '1':
-            from .renames import canonical_imports, inline_decorators, specialise_mixins, undo_renames
+            from .renames import canonical_imports, inline_decorators, materialise_properties, specialise_mixins, undo_renames
             trees_ = {fn[:-3]: t[3] for fn, t in parsed.items()}
             self.canonical_imports = canonical_imports(trees_, PKG)
             self.renamed_back = undo_renames(trees_)
             self.specialised = specialise_mixins(trees_)
             self.undecorated = inline_decorators(trees_)
+            self.materialised = materialise_properties(trees_)
         for fn in sorted(parsed):
             self._load(fn, parsed[fn])
         for m in self.modules.values():
@@ -267,7 +268,7 @@ class Repo:
                     continue
                 v = vals[0]
                 if isinstance(v, ast.Call) and ast.unparse(v.func) in ('collections.namedtuple', 'namedtuple') and len(v.args) >= 2 \
-                        and isinstance(v.args[0], ast.Constant) and v.args[0].value == name:
+                        and isinstance(v.args[0], ast.Constant):
                     f = v.args[1]
                     fields = None
                     if isinstance(f, (ast.List, ast.Tuple)) and all(isinstance(x, ast.Constant) and isinstance(x.value, str) for x in f.elts):
@@ -278,6 +279,11 @@ class Repo:
                         if name in found and found[name] != fields:
                             clash.add(name)
                         found[name] = fields
+        # ``s = StatusInfo``: another name of the same record type
+        for m in self.modules.values():
+            for name, vals in m.assigns.items():
+                if len(vals) == 1 and isinstance(vals[0], ast.Name) and vals[0].id in found and name not in found:
+                    found[name] = found[vals[0].id]
         _sym.NAMEDTUPLE_FIELDS.clear()
         _sym.NAMEDTUPLE_FIELDS.update({k: v for k, v in found.items() if k not in clash})
 
